@@ -456,6 +456,8 @@ def execute(program, schedule, directory):
     for pre_op in program.get("pre_ops", []):
         ops.real_apply(handles[pre_op["h"]], kinds[pre_op["h"]], pre_op["m"], dec(pre_op.get("a", [])), {})
 
+    ctx_state = {"main_exited": False, "own": []}
+
     def make_body(tops):
         def body(w):
             for n, op in enumerate(tops):
@@ -479,6 +481,27 @@ def execute(program, schedule, directory):
                     except Exception as e:  # noqa: BLE001
                         out = ops.Outcome(False, family=ops.exc_family(e),
                                           detail=f"{type(e).__name__}: {str(e)[:120]}")
+                elif op["m"] in ("ctx_exit_main", "ctx_enter_obj", "ctx_enter_cls", "ctx_exit_own"):
+                    # buffered contexts entered / left by a THREAD while others are operating
+                    try:
+                        if op["m"] == "ctx_exit_main":
+                            if ctx is not None and not ctx_state["main_exited"]:
+                                ctx_state["main_exited"] = True
+                                ctx.__exit__(None, None, None)
+                        elif op["m"] == "ctx_exit_own":
+                            mine = [c for c in ctx_state["own"] if c[0] is w]
+                            if mine:
+                                ctx_state["own"].remove(mine[-1])
+                                mine[-1][1].__exit__(None, None, None)
+                        else:
+                            c = handles[op["h"]].buffered if op["m"] == "ctx_enter_obj" else \
+                                type(handles[op["h"]]).buffer_backend()
+                            c.__enter__()
+                            ctx_state["own"].append((w, c))
+                        out = ops.Outcome(True, None)
+                    except Exception as e:  # noqa: BLE001
+                        out = ops.Outcome(False, family=ops.exc_family(e),
+                                          detail=f"{type(e).__name__}: {str(e)[:120]}")
                 elif op["m"] == "construct":
                     try:
                         handles.append(files[op["a"][0]].make(ci))
@@ -488,7 +511,7 @@ def execute(program, schedule, directory):
                                           detail=f"{type(e).__name__}: {str(e)[:120]}")
                 else:
                     out = ops.real_apply(handles[op["h"]], kinds[op["h"]], op["m"], dec(op.get("a", [])),
-                                         dec(op.get("kw", {})))
+                                         dec(op.get("kw", {})), resolve_real=lambda i: handles[i])
                 w.in_op = False
                 io_calls = list(FAULTS.calls) if FAULTS.armed else None
                 fired = FAULTS.fired
@@ -520,11 +543,17 @@ def execute(program, schedule, directory):
     }
     if res["poisoned"]:
         return res
-    if ctx is not None:
+    for _w, c in reversed(ctx_state["own"]):
         try:
-            ctx.__exit__(None, None, None)
+            c.__exit__(None, None, None)
         except Exception as e:  # noqa: BLE001
             res["exit_error"] = f"{type(e).__name__}: {str(e)[:200]}"
+    if ctx is not None:
+        if not ctx_state["main_exited"]:
+            try:
+                ctx.__exit__(None, None, None)
+            except Exception as e:  # noqa: BLE001
+                res["exit_error"] = f"{type(e).__name__}: {str(e)[:200]}"
         res["buffer_size"] = root_cls.get_current_buffer_size()
     leftover = [l.label or l.name for l in ALL_LOCKS if l.owner is not None]
     if leftover:
